@@ -7,7 +7,7 @@
      table.py         make_sort_spec, Table.lookup_records (which rows, in which order, which sort_key)
      lookup.py        LookupMapColumn._do_lookup_with_sort: sorted(row_id_set, key=sort_key)     (sort_rows)
      functions/prevnext.py   PREVIOUS / NEXT / RANK via _sorted_lookup                             (eval_query)
-   and the linear-scan definitions the property compares them with (scan_*).
+   and the linear-scan definitions the property compares them with (the scan_ definitions).
    Definitions only; lemmas are in Proofs/Bisect_proofs.v.  Tied to the code by harness/props/c14.py. *)
 From Coq Require Import ZArith QArith List Bool.
 Import ListNotations.
@@ -365,7 +365,7 @@ Fixpoint group_match (r : trow) (gkey : list (colid * val)) : bool :=
   | (c, v) :: t => match cell r c with Some w => val_eqb w v && group_match r t | None => false end
   end.
 
-(* Table.lookup_records(**gkey, order_by=..., sort_by=...): None stands for KeyError (unknown column) *)
+(* Table.lookup_records(gkey..., order_by=..., sort_by=...): None stands for KeyError (unknown column) *)
 Definition lookup_records (tbl : list trow) (has_manual_sort : bool) (gkey : list (colid * val))
            (order_by : list (list Z)) (sort_by : list Z) : option rset :=
   let sspec := map split_col_spec (make_sort_spec order_by sort_by has_manual_sort) in
@@ -376,7 +376,7 @@ Definition lookup_records (tbl : list trow) (has_manual_sort : bool) (gkey : lis
 
 Inductive op : Type := OLt | OLe | OGt | OGe | OEq | OPrev | ONext | ORankAsc | ORankDesc.
 
-(* a formula cell `T.lookupRecords(**gkey, order_by=...).find.<op>(*probe)` *)
+(* a formula cell `T.lookupRecords(gkey..., order_by=...).find.OP(probe values)` *)
 Definition eval_find (o : op) (tbl : list trow) (hm : bool) (gkey : list (colid * val))
            (order_by : list (list Z)) (sort_by : list Z) (probe : list val) : res :=
   match lookup_records tbl hm gkey order_by sort_by with
